@@ -7,6 +7,7 @@ mod chain;
 mod common;
 mod fairness;
 mod framing;
+mod jsoneq;
 mod limits;
 mod outframe;
 mod server;
@@ -61,6 +62,7 @@ fn main() {
         "cancel" => framing::run_c07(tier),
         "outframe" => outframe::run(tier),
         "limits" => limits::run(tier),
+        "jsoneq" => jsoneq::run(tier),
         "server" => server::run_c08(tier),
         "fairness" => fairness::run(tier),
         "faults" => server::run_c09(tier),
@@ -79,6 +81,7 @@ fn replay(v: &Value, path: &str) -> i32 {
         "C02" => outframe::replay(v),
         "C06" | "C11" => chain::replay(v),
         "C17" => limits::replay(v),
+        "C03" => jsoneq::replay(v),
         "C08" | "C09" | "C10" => server::replay(v),
         "C18" => fairness::replay(v),
         _ => {
